@@ -184,6 +184,35 @@ fn real_main(args: &[String]) -> i32 {
             };
             orchestrator::replay(&lookup, &PathBuf::from(path))
         }
+        "dump" => {
+            // development aid: nsim dump '<FileSpec json>' <out-prefix> writes the generated file
+            // (and the data file an index belongs to) for inspection with other tools
+            let (Some(spec), Some(prefix)) = (args.get(1), args.get(2)) else {
+                eprintln!("usage: nsim dump '<FileSpec json>' <out-prefix>");
+                return 2;
+            };
+            let spec: fmt::kinds::FileSpec = match serde_json::from_str(spec) {
+                Ok(s) => s,
+                Err(e) => {
+                    eprintln!("nsim: bad FileSpec: {e}");
+                    return 2;
+                }
+            };
+            match fmt::kinds::make(&spec) {
+                Ok(m) => {
+                    let _ = std::fs::write(format!("{prefix}.{}", spec.kind.name()), &m.bytes[..]);
+                    if let Some((k, d)) = &m.companion {
+                        let _ = std::fs::write(format!("{prefix}.companion.{}", k.name()), &d[..]);
+                    }
+                    println!("{} bytes, {} boundaries", m.bytes.len(), m.boundaries.len());
+                    0
+                }
+                Err(e) => {
+                    eprintln!("nsim: cannot build: {e}");
+                    2
+                }
+            }
+        }
         "plan" => {
             let Some(check) = args.get(1).and_then(|id| lookup(id)) else {
                 return 2;
